@@ -49,8 +49,9 @@ def srcSaved (l0 : Nat) : SrcKind → List Key
 def levelNames (lv : Level) : List String :=
   lv.rank :: (match lv.src with | .proj _ sr _ _ _ _ => [sr] | _ => [])
 
-theorem srcSteps_src (tr : Key → Bool) (dflt : Int) (rank : String) (l0 : Nat) (env : Env) (src : SrcKind) :
-    SrcSteps (srcPlain rank l0 src) (srcSaved l0 src) (srcSteps tr dflt rank l0 env src) := by
+theorem srcSteps_src (tr : Key → Bool) (dflt : Int) (rank : String) (l0 : Nat) (env : Env) (u : Nat → Option Nat)
+    (src : SrcKind) :
+    SrcSteps (srcPlain rank l0 src) (srcSaved l0 src) (srcSteps tr dflt rank l0 env u src) := by
   cases src with
   | fiber x =>
     intro i hi
@@ -79,6 +80,15 @@ theorem srcSteps_src (tr : Key → Bool) (dflt : Int) (rank : String) (l0 : Nat)
     cases s with
     | emit j => simp at e; subst e; exact projSteps_src _ _ _ _ _ _ _ _ j hs
     | yield c p => simp at e
+
+theorem popSource_src (tr : Key → Bool) (dflt : Int) (lv : Level) (env : Env) :
+    SrcSteps (srcPlain lv.rank 2 lv.src) (srcSaved 2 lv.src) (popSource tr dflt lv env) := by
+  have h := srcSteps_src tr dflt lv.rank 2 env (aget lv.uOps) lv.src
+  unfold popSource
+  split
+  · intro i hi
+    exact h i (List.mem_filter.1 hi).1
+  · exact h
 
 theorem srcKeys_ty (rank : String) (l0 : Nat) (src : SrcKind) :
     ∀ k ∈ srcPlain rank l0 src ++ srcSaved l0 src, k.2 ≠ "iter" ∧ k.2 ≠ "populate_1" ∧
@@ -123,7 +133,7 @@ theorem levelItems_ok (tr : Key → Bool) (dflt : Int) (lv : Level) (env : Env) 
   unfold levelItems
   split
   · -- z << src
-    have hsrc := srcSteps_src tr dflt lv.rank 2 env lv.src
+    have hsrc := popSource_src tr dflt lv env
     have hty := srcKeys_ty lv.rank 2 lv.src
     refine ⟨popItems_sep _ _ _ _ _ _ _, ?_, ?_, ?_⟩
     · intro x hx
@@ -142,6 +152,18 @@ theorem levelItems_ok (tr : Key → Bool) (dflt : Int) (lv : Level) (env : Env) 
   · split
     · -- a concrete fiber
       rename_i x
+      split
+      rotate_left
+      · -- … of a rank of format "U": the dense walk of `iterRangeShape`
+        refine ⟨denseItems_sep _ _ _ _ _ _ _ _, ?_, ?_, ?_⟩
+        · intro y hy
+          obtain ⟨s', c, p, e⟩ := denseItems_subs _ _ _ _ _ _ _ _ y hy
+          exact ⟨_, e⟩
+        · intro it hi k hkey
+          rcases denseItems_mem _ _ _ _ _ _ _ _ it hi with ⟨c, j', e⟩ | ⟨s', c, p, e⟩ | e <;> subst e <;>
+            simp [itemKey] at hkey
+          simp [levelNames, ← hkey]
+        · intro k; exact denseItems_sorted _ _ _ _ _ _ _ _ k
       refine ⟨(iterItems_eq_lazy _ _ _ _ _ _).choose_spec.2.1, ?_, ?_, ?_⟩
       · intro y hy
         obtain ⟨s', c, p, e⟩ := iterItems_subs _ _ _ _ _ _ y hy
@@ -152,17 +174,17 @@ theorem levelItems_ok (tr : Key → Bool) (dflt : Int) (lv : Level) (env : Env) 
         simp [levelNames, ← hkey]
       · intro k; exact iterItems_sorted _ _ _ _ _ _ k
     · -- a dense Ref loop
-      refine ⟨denseItems_sep _ _ _ _ _ _ _, ?_, ?_, ?_⟩
+      refine ⟨denseItems_sep _ _ _ _ _ _ _ _, ?_, ?_, ?_⟩
       · intro y hy
-        obtain ⟨s', c, p, e⟩ := denseItems_subs _ _ _ _ _ _ _ y hy
+        obtain ⟨s', c, p, e⟩ := denseItems_subs _ _ _ _ _ _ _ _ y hy
         exact ⟨_, e⟩
       · intro it hi k hkey
-        rcases denseItems_mem _ _ _ _ _ _ _ it hi with ⟨c, j', e⟩ | ⟨s', c, p, e⟩ | e <;> subst e <;>
+        rcases denseItems_mem _ _ _ _ _ _ _ _ it hi with ⟨c, j', e⟩ | ⟨s', c, p, e⟩ | e <;> subst e <;>
           simp [itemKey] at hkey
         simp [levelNames, ← hkey]
-      · intro k; exact denseItems_sorted _ _ _ _ _ _ _ k
+      · intro k; exact denseItems_sorted _ _ _ _ _ _ _ _ k
     · -- a lazy source
-      have hsrc := srcSteps_src tr dflt lv.rank 0 env lv.src
+      have hsrc := srcSteps_src tr dflt lv.rank 0 env (aget lv.uOps) lv.src
       have hty := srcKeys_ty lv.rank 0 lv.src
       refine ⟨lazyItems_sep _ _ _ _ _, ?_, ?_, ?_⟩
       · intro y hy
